@@ -29,16 +29,20 @@ def call_blockwise(chunks, labels):
 
     import flox.core as fc
 
-    lab = fc.factorize_((np.array(labels),), axes=())[0]
+    # as rechunk_for_blockwise does: factorise, missing labels (NaN) keep the code -1
+    lab, *_, props = fc.factorize_((np.array(labels, dtype=float),), axes=())
+    if props.nanmask is not None and np.any(props.nanmask):
+        lab = np.where(props.nanmask, -1, lab)
     return [int(x) for x in fc._get_optimal_chunks_for_groups(tuple(chunks), lab)], [int(x) for x in lab]
 
 
 def straddles(labels, chunks):
-    """groups that occur on both sides of some chunk boundary"""
+    """groups that occur on both sides of some chunk boundary (elements with a missing label belong to no group)"""
     bad, off = [], 0
+    real = lambda xs: {x for x in xs if x == x and x is not None}   # noqa: E731  (drops NaN)
     for c in chunks[:-1]:
         off += c
-        if set(labels[:off]) & set(labels[off:]):
+        if real(labels[:off]) & real(labels[off:]):
             bad.append(off)
     return bad
 
@@ -159,10 +163,16 @@ def run(run: C.Run):
             perm = list(range(len(runs)))
             rng.shuffle(perm)
             relabelled = [perm[x] for x in labels]
+            # the same runs with elements whose label is missing dropped in at random places (inside runs too)
+            holes = list(relabelled)
+            for _ in range(rng.randint(1, 2)):
+                holes[rng.randrange(n)] = float("nan")
             for chunks in G.compositions(n):
                 bw.append((chunks, labels, True))
                 if relabelled != labels:
                     bw.append((chunks, relabelled, True))
+                if n >= 3 and rng.random() < 0.5:
+                    bw.append((chunks, holes, True))
     for _ in range(3000 if thorough else 600):   # periodic / irregular (not sequential): well-formedness only
         n = rng.randint(2, 14)
         labels = G.rand_labels(rng, n, rng.randint(1, 4), style=rng.choice(["periodic", "random", "runs"]))
